@@ -1,5 +1,11 @@
 import Cx.Proofs.Reverse
 import Cx.Proofs.RevSuffixInst
+import Cx.Proofs.RevInnerInst
+import Cx.Proofs.RevAnchored
+import Cx.Proofs.RevSuffixSet
+import Cx.Proofs.RevSuffixSetInst
+import Cx.Proofs.MultilineRevSuffix
+import Cx.Proofs.RevSuffixDfa
 import Cx.Proofs.Compile
 import Cx.Proofs.Nfa
 /-
@@ -68,9 +74,10 @@ theorem C02_leftmost_start_is_longest_reverse_match {N : NFA} (H : Rev.RevHyp N)
 `Cx.RevSuffix` transliterates the candidate loop (prefilter on the suffix literal, bounded reverse scans with the
 anti-quadratic guard, forward search for the span, Pike fallback, the `.*literal` shortcut) over component oracles.  The
 theorems are RELATIVE to the oracles' contracts; the instantiation plugs in the proved models (forward lazy DFA, Pike VM,
-literal-necessity checker) and leaves the reverse DFA search as the contract `RevDfaContract` (its language side is
-`C02_reverse_automaton_language`; the reverse search LOOP of dfa/lazy is not modelled).  The check replays the model
-with brute-force oracles against the real searcher on every generated pattern that selects the strategy. -/
+literal-necessity checker).  `C02_revSuffix_find_eq_reference` leaves the reverse DFA search as the contract
+`RevDfaContract`; `C02_revSuffix_find_eq_reference_closed` (below) discharges it with the model of the real reverse
+searches of dfa/lazy (`Cx.Model.DfaRev`).  The check replays the model with brute-force oracles against the real searcher
+on every generated pattern that selects the strategy. -/
 
 /-- under the component contracts the strategy returns exactly the reference's leftmost-first span, for every haystack and
     every start offset (whatever the cut-off / give-up behaviour of the reverse scans) -/
@@ -96,5 +103,255 @@ theorem C02_revSuffix_linear_reverse_work {O : RevSuffix.Oracles} (P : RevSuffix
     (RevSuffix.findIndicesAtT O P h at_).2.revCost ≤ 2 * (h.size - at_) ∧
     (RevSuffix.findIndicesAtT O P h at_).2.pfCalls ≤ h.size - at_ :=
   RevSuffix.revCost_le (O := O) (P := P) (h := h) hpf hfw hat
+
+/-! #### the reverse lazy-DFA searches (`dfa/lazy/lazy.go`: SearchReverse / SearchReverseLimited / IsMatchReverse)
+
+`Cx.Model.DfaRev` transliterates the three searches (4x unrolled block, single-byte loops, start state, cache, the NFA
+fallback `reverseWalk`) for a DFA configured with `BreakAtMatch = false`, as every reverse DFA is.  (a) the cache is
+invisible; (b) the uncached search on a look-free, rune-free automaton `R` returns the LEAST `s ∈ [start, end]` such that `R`
+accepts `h[end-1] … h[s]` (`AcceptsA`-style reference: every matching sparse transition is followed — reverse automata have
+overlapping sparse ranges); (c) on `R = nfa.Reverse(N)` / `nfa.ReverseAnchored(N)` that is the leftmost start of a match of
+`N` ending at `end`. -/
+
+/-- (a) `SearchReverse` and `IsMatchReverse` do not depend on the cache; `SearchReverseLimited` only in that the DFA loop
+    may answer -2 (`SearchReverseLimitedQuadratic`) where the NFA fallback already knows the start `minStart + 1`
+    (witness: `Cx.Dfa.limited_cache_dependent`) -/
+theorem C02_reverse_search_memo_invisible {R : NFA} {cfg : Dfa.Config} {h : Bytes} (hC : Dfa.ClassSound R cfg)
+    (hb : Dfa.BytesOK h) {c : Dfa.Cache} (hI : Dfa.Inv R cfg c) (start e minStart : Nat) :
+    (Dfa.searchReverseC R cfg c h start e).1 = Dfa.searchReverseU R cfg h start e ∧
+    (Dfa.isMatchReverseC R cfg c h start e).1 = Dfa.isMatchReverseU R cfg h start e ∧
+    ((Dfa.searchReverseLimitedC R cfg c h start e minStart).1 = Dfa.searchReverseLimitedU R cfg h start e minStart ∨
+     ((Dfa.searchReverseLimitedC R cfg c h start e minStart).1 = .cutOff ∧ start < minStart ∧
+        Dfa.searchReverseLimitedU R cfg h start e minStart = .found (minStart + 1))) ∧
+    Dfa.Inv R cfg (Dfa.searchReverseC R cfg c h start e).2 ∧ Dfa.Inv R cfg (Dfa.isMatchReverseC R cfg c h start e).2 ∧
+    Dfa.Inv R cfg (Dfa.searchReverseLimitedC R cfg c h start e minStart).2 :=
+  ⟨(Dfa.searchReverseC_eq hC hb hI start e).2, (Dfa.isMatchReverseC_eq hC hb hI start e).2,
+   (Dfa.searchReverseLimitedC_eq hC hb hI start e minStart).2, (Dfa.searchReverseC_eq hC hb hI start e).1,
+   (Dfa.isMatchReverseC_eq hC hb hI start e).1, (Dfa.searchReverseLimitedC_eq hC hb hI start e minStart).1⟩
+
+/-- (b) the uncached reverse search is the longest reverse match: the least accepted start, -1 iff there is none -/
+theorem C02_reverse_search_is_longest_reverse_match {R : NFA} {cfg : Dfa.Config} (H : Dfa.RevDfaHyp R cfg) (h : Bytes)
+    {start e : Nat} (hse : start < e) (he : e ≤ h.size) :
+    ∃ o, Dfa.searchReverseU R cfg h start e = Dfa.ofLast o ∧ Dfa.LeastIn (Dfa.RAcc R h e) start e o :=
+  Dfa.searchReverseU_spec H h hse he
+
+/-- (b) with the anti-quadratic bound: -2 exactly when `minStart > start` and the automaton is alive after every byte the
+    bounded scan may read (`h[end-1] … h[minStart]`); otherwise the exact answer -/
+theorem C02_reverse_search_limited {R : NFA} {cfg : Dfa.Config} (H : Dfa.RevDfaHyp R cfg) (h : Bytes)
+    {start e minStart : Nat} (hse : start < e) (he : e ≤ h.size) :
+    ((start < minStart ∧ ∀ at_, minStart ≤ at_ → at_ < e → Dfa.RAlive R h e at_) →
+        Dfa.searchReverseLimitedU R cfg h start e minStart = .cutOff) ∧
+    (¬ (start < minStart ∧ ∀ at_, minStart ≤ at_ → at_ < e → Dfa.RAlive R h e at_) →
+        ∃ o, Dfa.searchReverseLimitedU R cfg h start e minStart = Dfa.ofLast o ∧ Dfa.LeastIn (Dfa.RAcc R h e) start e o) :=
+  Dfa.reverseWalk_spec H h hse he
+
+/-- (c) on the reverse automaton of `N` (either variant) the reverse search returns the LEFTMOST start of a match of `N`
+    that ends at `e`; the reverse automaton is look-free and rune-free by construction -/
+theorem C02_reverse_search_leftmost_start {N : NFA} (H : Rev.RevHyp N) (a : Bool) {rcfg : Dfa.Config}
+    (hbrk : rcfg.breakAtMatch = false) (h : Bytes) {start e : Nat} (hse : start < e) (he : e ≤ h.size) :
+    ∃ o, Dfa.searchReverseU (Rev.reverse N a) rcfg h start e = Dfa.ofLast o ∧
+      Dfa.LeastIn (fun s => Rev.AcceptsA N h s e) start e o :=
+  RevSuffix.reverse_search_leftmost_start H a hbrk h hse he
+
+/-- **the reverse-suffix strategy over component MODELS only** — forward lazy DFA, reverse lazy DFA
+    (`SearchReverseLimited` / `SearchReverse` of `Cx.Model.DfaRev` on `nfa.Reverse(N)` of `Cx.Model.Reverse`, configured
+    with `BreakAtMatch = false`), Pike VM, literal search — returns exactly the reference's leftmost-first span -/
+theorem C02_revSuffix_find_eq_reference_closed {N : NFA} {cfg rcfg : Dfa.Config} (H : RevSuffix.NfaHyp N cfg)
+    (hbrk : rcfg.breakAtMatch = false) {P : RevSuffix.Params} (hL : 0 < P.suffix.size) (hmz : P.matchStartZero = false)
+    (hlit : Lit.checkSuffix N [P.suffix.toList] = true)
+    (hlb : P.lineBounded = true → ∀ (h : Bytes) s e, s ≤ h.size → Accepts N h s e → ∀ i, s ≤ i → i < e → h.at i ≠ 10)
+    {h : Bytes} (hb : Dfa.BytesOK h) {at_ : Nat} (hat : at_ ≤ h.size) :
+    RevSuffix.findIndicesAt (RevSuffix.realOracles N cfg P.suffix (RevSuffix.revSearchLimited N rcfg)
+      (RevSuffix.revSearchFull N rcfg)) P h at_ = btSearchAt N h at_ :=
+  RevSuffix.C14_revSuffix_find_eq_reference_closed H hbrk hL hmz hlit hlb hb hat
+
+/-- the same with the CACHED reverse searches, whatever caches (satisfying the cache invariant) the calls find -/
+theorem C02_revSuffix_find_eq_reference_closed_cached {N : NFA} {cfg rcfg : Dfa.Config} (H : RevSuffix.NfaHyp N cfg)
+    (hbrk : rcfg.breakAtMatch = false) (hC : Dfa.ClassSound (RevSuffix.revNfa N) rcfg) {P : RevSuffix.Params}
+    (hL : 0 < P.suffix.size) (hmz : P.matchStartZero = false) (hlit : Lit.checkSuffix N [P.suffix.toList] = true)
+    (hlb : P.lineBounded = true → ∀ (h : Bytes) s e, s ≤ h.size → Accepts N h s e → ∀ i, s ≤ i → i < e → h.at i ≠ 10)
+    {h : Bytes} (hb : Dfa.BytesOK h)
+    {cl : Bytes → Nat → Nat → Nat → Dfa.Cache} {cf : Bytes → Nat → Nat → Dfa.Cache}
+    (hcl : ∀ lo e m, Dfa.Inv (RevSuffix.revNfa N) rcfg (cl h lo e m))
+    (hcf : ∀ lo e, Dfa.Inv (RevSuffix.revNfa N) rcfg (cf h lo e)) {at_ : Nat} (hat : at_ ≤ h.size) :
+    RevSuffix.findIndicesAt (RevSuffix.realOracles N cfg P.suffix (RevSuffix.revSearchLimitedC N rcfg cl)
+      (RevSuffix.revSearchFullC N rcfg cf)) P h at_ = btSearchAt N h at_ :=
+  RevSuffix.C14_revSuffix_find_eq_reference_closed_cached H hbrk hC hL hmz hlit hlb hb hcl hcf hat
+
+theorem C02_revSuffix_isMatch_iff_closed {N : NFA} {cfg rcfg : Dfa.Config} (H : RevSuffix.NfaHyp N cfg)
+    (hbrk : rcfg.breakAtMatch = false) {P : RevSuffix.Params} (hL : 0 < P.suffix.size)
+    (hlit : Lit.checkSuffix N [P.suffix.toList] = true) {h : Bytes} (hb : Dfa.BytesOK h) :
+    RevSuffix.isMatch (RevSuffix.realOracles N cfg P.suffix (RevSuffix.revSearchLimited N rcfg)
+      (RevSuffix.revSearchFull N rcfg)) P h = true ↔ ∃ i j, i ≤ h.size ∧ Accepts N h i j :=
+  RevSuffix.C14_revSuffix_isMatch_iff_closed H hbrk hL hlit hb
+
+/-! #### reverse inner (`meta/reverse_inner.go`)
+
+`Cx.RevInner` transliterates `findCandidate` / `findIndicesAtImpl` / `searchSpan` / `IsMatch` (inner-literal prefilter, reverse
+DFA of the PREFIX portion bounded by `minMatchStart`, forward DFA of the whole pattern anchored at the prefix start with the
+stop-at guard `minPreStart`, the `exactStart` / `lineBounded` / `.*literal.*` shortcuts, the fallbacks) over component oracles.
+The instantiation plugs in the proved models of the forward lazy DFA (unanchored, anchored, earliest) and the Pike VM; the two
+reverse DFAs (of the prefix automaton and of the whole automaton) are the contract `RevDfaContract`, as for reverse suffix. -/
+
+/-- under the component contracts and the split hypothesis (the pattern is PREFIX · SUFFIX, SUFFIX starts with an inner
+    literal) the strategy returns exactly the reference's leftmost-first span, for every haystack and every start offset,
+    whatever the cut-off / give-up / stop-at behaviour of the components -/
+theorem C02_revInner_find_eq_reference {N Npre : NFA} {cfg cfgp : Dfa.Config} (H : RevSuffix.NfaHyp N cfg)
+    (Hp : RevSuffix.NfaHyp Npre cfgp) {Suf : Bytes → Nat → Nat → Prop} {lits : List Bytes} (SH : RevInner.SplitHyp N Npre Suf lits)
+    {P : RevInner.Params} (hd : P.dotStarLiteral = none)
+    (hnull : (P.prefixNullable = false → ∀ (h : Bytes) a, ¬ Accepts Npre h a a) ∧
+      (P.startAnchored = true → ∀ (h : Bytes) a, 0 < a → ¬ Accepts Npre h a a))
+    (hex : P.exactStart = true → ∀ (h : Bytes) s p s' p', s ≤ h.size → Accepts Npre h s p → Accepts Npre h s' p' → s ≤ s' →
+      p' ≤ p → Accepts Npre h s p')
+    (hlb : P.lineBounded = true → ∀ (h : Bytes) s e, s ≤ h.size → Accepts N h s e → ∀ i, s ≤ i → i < e → h.at i ≠ 10)
+    {revL : Bytes → Nat → Nat → Nat → RevSuffix.RevAnswer} {revF : Bytes → Nat → Nat → Option Nat} {stop : Bytes → Nat → Nat}
+    {revF' : Bytes → Nat → Nat → Option Nat} {revL' : Bytes → Nat → Nat → Nat → RevSuffix.RevAnswer}
+    {h : Bytes} (hb : Dfa.BytesOK h) (Cp : RevSuffix.RevDfaContract Npre revL revF' h) (C : RevSuffix.RevDfaContract N revL' revF h)
+    {at_ : Nat} (hat : at_ ≤ h.size) :
+    RevInner.findIndicesAt (RevInner.realOracles N cfg lits revL revF stop) P h at_ = btSearchAt N h at_ :=
+  RevInner.C14_revInner_find_eq_reference H Hp SH hd hnull hex hlb hb Cp C hat
+
+theorem C02_revInner_isMatch_iff {N Npre : NFA} {cfg cfgp : Dfa.Config} (H : RevSuffix.NfaHyp N cfg)
+    (Hp : RevSuffix.NfaHyp Npre cfgp) {Suf : Bytes → Nat → Nat → Prop} {lits : List Bytes} (SH : RevInner.SplitHyp N Npre Suf lits)
+    {P : RevInner.Params} (hd : P.dotStarLiteral = none)
+    (hnull : (P.prefixNullable = false → ∀ (h : Bytes) a, ¬ Accepts Npre h a a) ∧
+      (P.startAnchored = true → ∀ (h : Bytes) a, 0 < a → ¬ Accepts Npre h a a))
+    {revL : Bytes → Nat → Nat → Nat → RevSuffix.RevAnswer} {revF : Bytes → Nat → Nat → Option Nat} {stop : Bytes → Nat → Nat}
+    {revF' : Bytes → Nat → Nat → Option Nat} {revL' : Bytes → Nat → Nat → Nat → RevSuffix.RevAnswer}
+    {h : Bytes} (hb : Dfa.BytesOK h) (Cp : RevSuffix.RevDfaContract Npre revL revF' h) (C : RevSuffix.RevDfaContract N revL' revF h) :
+    RevInner.isMatch (RevInner.realOracles N cfg lits revL revF stop) P h = true ↔ ∃ i j, i ≤ h.size ∧ Accepts N h i j :=
+  RevInner.C14_revInner_isMatch_iff H Hp SH hd hnull hb Cp C
+
+/-- the `.*literal.*` shortcut (`dotStarLiteral`), relative to what `dotStarLiteralDotStar` must guarantee (`ShapeSpec`) -/
+theorem C02_revInner_shape_find_eq_reference {O : RevInner.Oracles} {P : RevInner.Params} {lit : Bytes}
+    {Mt : Bytes → Nat → Nat → Prop} {ref : Bytes → Nat → Option (Nat × Nat)} {h : Bytes}
+    (D : RevInner.ShapeSpec O P lit Mt ref h) {at_ : Nat} (hat : at_ ≤ h.size) :
+    RevInner.findIndicesAt O P h at_ = ref h at_ ∧ RevInner.isMatch O P h = (ref h 0).isSome :=
+  ⟨RevInner.shape_find_eq_ref D hat, RevInner.shape_isMatch_eq_ref D⟩
+
+/-- the anti-quadratic guards work: `minMatchStart` keeps the windows of the bounded reverse scans apart and `minPreStart`
+    (stop-at) bounds the anchored forward scans: per call at most 2·(|h| - at) bytes in reverse scans, at most 2·(|h| - at)
+    bytes in anchored forward scans, at most |h| + 1 - at prefilter calls, at most one unanchored forward scan -/
+theorem C02_revInner_linear_work {O : RevInner.Oracles} (P : RevInner.Params) {h : Bytes} (C : RevInner.CostSpec O h)
+    {at_ : Nat} (hat : at_ ≤ h.size) :
+    (RevInner.findIndicesAtT O P h at_).2.revCost ≤ 2 * (h.size - at_) ∧
+    (RevInner.findIndicesAtT O P h at_).2.anchCost ≤ 2 * (h.size - at_) ∧
+    (RevInner.findIndicesAtT O P h at_).2.pfCalls ≤ h.size + 1 - at_ ∧
+    (∀ a, (RevInner.findIndicesAtT O P h at_).2.fwd = some a → at_ ≤ a) :=
+  RevInner.cost_le (P := P) C hat
+
+/-- a concrete instance of all hypotheses: `[a-z]+@[a-z]+` -/
+theorem C02_revInner_closed_instance (stop : Bytes → Nat → Nat) {h : Bytes} (hb : Dfa.BytesOK h) {at_ : Nat} (hat : at_ ≤ h.size) :
+    RevInner.findIndicesAt (RevInner.realOracles RevInner.exN Dfa.Config.plain [#[64]] (RevSuffix.specRevLimited RevInner.exNpre)
+        (RevSuffix.specRevFull RevInner.exN) stop) { innerLen := 1, exactStart := true, lineBounded := true } h at_ =
+      btSearchAt RevInner.exN h at_ :=
+  RevInner.C14_revInner_closed_instance stop hb hat
+
+/-! #### reverse anchored (`meta/reverse_anchored.go`), reverse suffix set (`meta/reverse_suffix_set.go`), multiline reverse
+suffix (`meta/reverse_suffix_multiline.go`)
+
+The three remaining reverse strategies, each transliterated over abstract component oracles and proved equal to the reference
+search RELATIVE to the component contracts and to an explicit hypothesis about the pattern (the thing the strategy selection in
+`meta/strategy.go` must guarantee).  Every hypothesis has a machine-checked counter-model showing what goes wrong without it
+and a concrete instance satisfying all of them (`Cx.Proofs.RevAnchored`, `…RevSuffixSet`, `…MultilineRevSuffix`). -/
+
+/-- a pattern all of whose matches end at the end of the haystack: one reverse scan from the end finds the reference's span -/
+theorem C02_revAnchored_find_eq_reference {O : RevAnchored.Oracles} {Mt : Bytes → Nat → Nat → Prop}
+    {ref : Bytes → Nat → Option (Nat × Nat)} {h : Bytes} (S : RevAnchored.Spec O Mt ref h) :
+    RevAnchored.find O h = ref h 0 ∧ RevAnchored.isMatch O h = (ref h 0).isSome :=
+  ⟨RevAnchored.find_eq_ref S, RevAnchored.isMatch_eq_ref S⟩
+
+/-- a pattern every match of which ends with one of several literals: the candidate loop over all literals standing at a
+    prefilter position returns the reference's span, whatever the cut-off / give-up behaviour of the reverse scans -/
+theorem C02_revSuffixSet_find_eq_reference {O : RevSuffix.Oracles} {P : RevSuffixSet.Params} {Mt : Bytes → Nat → Nat → Prop}
+    {ref : Bytes → Nat → Option (Nat × Nat)} {h : Bytes} (S : RevSuffixSet.Spec O P Mt ref h) (hmz : P.matchStartZero = false)
+    {at_ : Nat} (hat : at_ ≤ h.size) :
+    RevSuffixSet.findIndicesAt O P h at_ = ref h at_ ∧ RevSuffixSet.isMatch O P h = (ref h 0).isSome :=
+  ⟨RevSuffixSet.findIndicesAt_eq_ref S hmz hat, RevSuffixSet.isMatch_eq_ref S⟩
+
+/-- the same with the real component models plugged in (forward lazy DFA, Pike VM, literal checker; the reverse DFA is the
+    contract `RevDfaContract`), as for the single-suffix strategy -/
+theorem C02_revSuffixSet_find_eq_reference_real {N : NFA} {cfg : Dfa.Config} (H : RevSuffix.NfaHyp N cfg) {P : RevSuffixSet.Params}
+    (hL : ∀ l, l ∈ P.lits → 0 < l.size) (hmz : P.matchStartZero = false)
+    (hlit : Lit.checkSuffix N (P.lits.map Array.toList) = true)
+    (hlb : P.lineBounded = true → ∀ (h : Bytes) s e, s ≤ h.size → Accepts N h s e → ∀ i, s ≤ i → i < e → h.at i ≠ 10)
+    {revL : Bytes → Nat → Nat → Nat → RevSuffix.RevAnswer} {revF : Bytes → Nat → Nat → Option Nat}
+    {h : Bytes} (hb : Dfa.BytesOK h) (C : RevSuffix.RevDfaContract N revL revF h) {at_ : Nat} (hat : at_ ≤ h.size) :
+    RevSuffixSet.findIndicesAt (RevSuffixSet.realOracles N cfg P.lits revL revF) P h at_ = btSearchAt N h at_ :=
+  RevSuffixSet.C14_revSuffixSet_find_eq_reference H hL hmz hlit hlb hb C hat
+
+/-- the byte-search shortcut for `.*(?:lit1|lit2|…)` (`matchStartZero`), relative to what `isDotStarLiteralSet` must guarantee -/
+theorem C02_revSuffixSet_dotStar_eq_reference {O : RevSuffix.Oracles} {P : RevSuffixSet.Params} {Mt : Bytes → Nat → Nat → Prop}
+    {ref : Bytes → Nat → Option (Nat × Nat)} {h : Bytes} (D : RevSuffixSet.DotStarSetSpec O P Mt ref h)
+    (hmz : P.matchStartZero = true) {at_ : Nat} (hat : at_ ≤ h.size) : RevSuffixSet.findIndicesAt O P h at_ = ref h at_ :=
+  RevSuffixSet.dotStar_eq_ref D hmz hat
+
+/-- the anti-quadratic guard with K suffix literals: the bounded reverse scans of one call read at most K·(|h| - at) bytes
+    (no hypothesis about the components is needed) -/
+theorem C02_revSuffixSet_linear_reverse_work (O : RevSuffix.Oracles) (P : RevSuffixSet.Params) (h : Bytes) (at_ : Nat) :
+    RevSuffix.windowsCost (RevSuffixSet.findIndicesAtT O P h at_).2 ≤ P.lits.length * (h.size - at_) :=
+  RevSuffixSet.limited_cost_le at_
+
+/-- a pattern that starts with `(?m)^`, cannot match '\n' and always contains a prefilter literal: the line-by-line
+    search returns the reference's span (general patterns: verified by the anchored forward DFA) -/
+theorem C02_multilineRevSuffix_find_eq_reference {O : MultilineRevSuffix.Oracles} {P : MultilineRevSuffix.Params}
+    {Mt : Bytes → Nat → Nat → Prop} {IsLit : Bytes → Nat → Prop} {ref : Bytes → Nat → Option (Nat × Nat)} {h : Bytes}
+    (S : MultilineRevSuffix.Spec O P Mt IsLit ref h) {at_ : Nat} (hat : at_ ≤ h.size) :
+    MultilineRevSuffix.findIndicesAt O P h at_ = ref h at_ ∧ MultilineRevSuffix.isMatch O P h = (ref h 0).isSome :=
+  ⟨MultilineRevSuffix.C_find_eq_ref S hat, MultilineRevSuffix.isMatch_eq_ref S.toCore (MultilineRevSuffix.lineOK_of_spec S)⟩
+
+/-- the literal shape `(?m)^prefix.*suffix` / `.+`: decided by byte comparisons alone -/
+theorem C02_multilineRevSuffix_shape_eq_reference {O : MultilineRevSuffix.Oracles} {P : MultilineRevSuffix.Params}
+    {Mt : Bytes → Nat → Nat → Prop} {IsLit : Bytes → Nat → Prop} {ref : Bytes → Nat → Option (Nat × Nat)} {h : Bytes}
+    (S : MultilineRevSuffix.ShapeSpec O P Mt IsLit ref h) {at_ : Nat} (hat : at_ ≤ h.size) :
+    MultilineRevSuffix.findIndicesAt O P h at_ = ref h at_ :=
+  MultilineRevSuffix.shape_find_eq_ref S hat
+
+/-- no line is verified twice: the lines handed to `matchLine` by one call are disjoint and have at most |h| - at bytes together -/
+theorem C02_multilineRevSuffix_linear_work {O : MultilineRevSuffix.Oracles} (P : MultilineRevSuffix.Params) {h : Bytes}
+    (hpf : ∀ st p, O.pfFind h st = some p → st ≤ p ∧ p < h.size) {at_ : Nat} (hat : at_ ≤ h.size) :
+    RevSuffix.windowsCost (MultilineRevSuffix.findIndicesAtT O P h at_).2 ≤ h.size - at_ :=
+  MultilineRevSuffix.lines_cost_le (P := P) hpf hat
+
+/-! #### the reverse strategies over component MODELS only
+
+The two reverse lazy-DFA oracles of the reverse-inner and reverse-suffix-set strategies instantiated with the model of the real
+reverse searches (`Cx.Model.DfaRev`, `BreakAtMatch = false`), whose contract is `RevSuffix.revDfa_contract`: no abstract
+component is left. -/
+
+theorem C02_revInner_find_eq_reference_closed {N Npre : NFA} {cfg cfgp rcfg rcfgp : Dfa.Config} (H : RevSuffix.NfaHyp N cfg)
+    (Hp : RevSuffix.NfaHyp Npre cfgp) {Suf : Bytes → Nat → Nat → Prop} {lits : List Bytes} (SH : RevInner.SplitHyp N Npre Suf lits)
+    {P : RevInner.Params} (hd : P.dotStarLiteral = none)
+    (hnull : (P.prefixNullable = false → ∀ (h : Bytes) a, ¬ Accepts Npre h a a) ∧
+      (P.startAnchored = true → ∀ (h : Bytes) a, 0 < a → ¬ Accepts Npre h a a))
+    (hex : P.exactStart = true → ∀ (h : Bytes) s p s' p', s ≤ h.size → Accepts Npre h s p → Accepts Npre h s' p' → s ≤ s' →
+      p' ≤ p → Accepts Npre h s p')
+    (hlb : P.lineBounded = true → ∀ (h : Bytes) s e, s ≤ h.size → Accepts N h s e → ∀ i, s ≤ i → i < e → h.at i ≠ 10)
+    (hbrk : rcfg.breakAtMatch = false) (hbrkp : rcfgp.breakAtMatch = false) {stop : Bytes → Nat → Nat}
+    {h : Bytes} (hb : Dfa.BytesOK h) {at_ : Nat} (hat : at_ ≤ h.size) :
+    RevInner.findIndicesAt (RevInner.realOracles N cfg lits (RevSuffix.revSearchLimited Npre rcfgp)
+      (RevSuffix.revSearchFull N rcfg) stop) P h at_ = btSearchAt N h at_ :=
+  C02_revInner_find_eq_reference H Hp SH hd hnull hex hlb hb (RevSuffix.revDfa_contract Npre hbrkp h)
+    (RevSuffix.revDfa_contract N hbrk h) hat
+
+theorem C02_revInner_isMatch_iff_closed {N Npre : NFA} {cfg cfgp rcfg rcfgp : Dfa.Config} (H : RevSuffix.NfaHyp N cfg)
+    (Hp : RevSuffix.NfaHyp Npre cfgp) {Suf : Bytes → Nat → Nat → Prop} {lits : List Bytes} (SH : RevInner.SplitHyp N Npre Suf lits)
+    {P : RevInner.Params} (hd : P.dotStarLiteral = none)
+    (hnull : (P.prefixNullable = false → ∀ (h : Bytes) a, ¬ Accepts Npre h a a) ∧
+      (P.startAnchored = true → ∀ (h : Bytes) a, 0 < a → ¬ Accepts Npre h a a))
+    (hbrk : rcfg.breakAtMatch = false) (hbrkp : rcfgp.breakAtMatch = false) {stop : Bytes → Nat → Nat}
+    {h : Bytes} (hb : Dfa.BytesOK h) :
+    RevInner.isMatch (RevInner.realOracles N cfg lits (RevSuffix.revSearchLimited Npre rcfgp)
+      (RevSuffix.revSearchFull N rcfg) stop) P h = true ↔ ∃ i j, i ≤ h.size ∧ Accepts N h i j :=
+  C02_revInner_isMatch_iff H Hp SH hd hnull hb (RevSuffix.revDfa_contract Npre hbrkp h) (RevSuffix.revDfa_contract N hbrk h)
+
+theorem C02_revSuffixSet_find_eq_reference_closed {N : NFA} {cfg rcfg : Dfa.Config} (H : RevSuffix.NfaHyp N cfg)
+    {P : RevSuffixSet.Params} (hL : ∀ l, l ∈ P.lits → 0 < l.size) (hmz : P.matchStartZero = false)
+    (hlit : Lit.checkSuffix N (P.lits.map Array.toList) = true)
+    (hlb : P.lineBounded = true → ∀ (h : Bytes) s e, s ≤ h.size → Accepts N h s e → ∀ i, s ≤ i → i < e → h.at i ≠ 10)
+    (hbrk : rcfg.breakAtMatch = false) {h : Bytes} (hb : Dfa.BytesOK h) {at_ : Nat} (hat : at_ ≤ h.size) :
+    RevSuffixSet.findIndicesAt (RevSuffixSet.realOracles N cfg P.lits (RevSuffix.revSearchLimited N rcfg)
+      (RevSuffix.revSearchFull N rcfg)) P h at_ = btSearchAt N h at_ :=
+  C02_revSuffixSet_find_eq_reference_real H hL hmz hlit hlb hb (RevSuffix.revDfa_contract N hbrk h) hat
 
 end Cx.C02
